@@ -120,7 +120,7 @@ def r4_1(ctx):
             okq, bad = False, b
             continue
         i = em.index(y_bs)
-        adv = [j for j, e in enumerate(em) if e[0] == "set" and e[1] == "start" and e[2].replace(" ", "") in (f"startAdd{Q}*2".replace(" ", ""), f"startAdd2*({Q})".replace(" ", ""), f"startAdd({Q})*2".replace(" ", ""))]
+        adv = [j for j, e in enumerate(em) if e[0] == "set" and e[1] == "start" and e[2].replace(" ", "") in (f"start+{Q}*2".replace(" ", ""), f"start+2*({Q})".replace(" ", ""), f"start+({Q})*2".replace(" ", ""))]
         later_yields = [j for j, e in enumerate(em) if j > i and e[0] == "yield"]
         if not adv or (later_yields and adv[0] > later_yields[0]) or adv[0] < i:
             okq, bad = False, b
